@@ -363,8 +363,23 @@ fn allows_mate_in_one(p: &Pos, m: &Move) -> bool {
 
 pub fn c11_case(case: &SearchCase, kmax: u64, st: &mut Stats) -> CaseResult {
     st.eval();
+    // The FEN's move counters are part of "every legal position": half of the cases are rebuilt
+    // with a half-move clock of up to 99 (a quiet mating move then makes the hundredth half-move;
+    // checkmate ends the game whatever the clock says) and large move numbers.
+    let counters = [(0u32, 1u32), (99, 80), (0, 1), (98, 120), (99, 1), (0, 1), (50, 60), (99, 300)][(fp(&(case.start.fen(), case.moves.iter().map(mv_name).collect::<Vec<_>>())) % 8) as usize];
+    let rebuilt;
+    let case = if counters != (0, 1) {
+        crate::props::hash::FEN_COUNTERS.with(|c| c.set(counters));
+        let r = make_case(&case.start, &case.moves);
+        crate::props::hash::FEN_COUNTERS.with(|c| c.set((0, 1)));
+        rebuilt = r?;
+        st.label(if counters.0 >= 98 { "fen_half_move_clock_98_or_99" } else { "fen_counters_not_0_1" });
+        &rebuilt
+    } else {
+        case
+    };
     let p = &case.root;
-    let at = || format!("'{}' after {:?}", case.start.fen(), case.moves.iter().map(mv_name).collect::<Vec<_>>());
+    let at = || format!("'{}' (counters {} {}) after {:?}", case.start.fen(), counters.0, counters.1, case.moves.iter().map(mv_name).collect::<Vec<_>>());
     let legal = p.legal_moves();
     let mating: Vec<Move> = legal.iter().filter(|m| is_mate_move(p, m)).cloned().collect();
     let walks_into: Vec<bool> = legal.iter().map(|m| allows_mate_in_one(p, m)).collect();
